@@ -365,3 +365,71 @@ def ins_job(draw, resume_cycles=(0, 0), nlive=(100, 500),
         labels.append(f"kills:{len(kills)}")
     return {"model": model, "ins": True, "kwargs": kw, "kills": kills,
             "labels": labels}
+
+
+# ------------------------------------------------------------------ C15
+@st.composite
+def stop_job(draw):
+    """Small runs that exercise the stopping rules of both samplers."""
+    if draw(st.booleans()):
+        model = draw(st.sampled_from([
+            {"name": "gauss_uniform", "dims": 2},
+            {"name": "gauss_uniform", "dims": 3},
+            {"name": "gauss_gauss", "dims": 2},
+        ]))
+        n = draw(st.integers(30, 150))
+        kw = {"seed": draw(st.integers(0, 2**31 - 1)), "nlive": n,
+              "plot": False,
+              "stopping": draw(st.sampled_from([0.01, 0.1, 0.5, 1.0, 5.0])),
+              "flow_config": {"n_blocks": 2, "n_neurons": 8},
+              "training_config": {"max_epochs": draw(st.integers(10, 40)),
+                                  "patience": 5},
+              "checkpointing": True, "checkpoint_on_iteration": True,
+              "checkpoint_interval": draw(st.integers(10, 100))}
+        labels = ["sampler:standard", f"stopping:{kw['stopping']}"]
+        if draw(st.integers(0, 2)) == 0:
+            kw["max_iteration"] = draw(st.integers(n, 5 * n))
+            labels.append("with-cap")
+        if draw(st.booleans()):
+            kw["shrinkage_expectation"] = draw(st.sampled_from(["t", "logt"]))
+        return {"model": model, "ins": False, "kwargs": kw, "kills": [],
+                "labels": labels}
+    model = draw(st.sampled_from([
+        {"name": "gauss_uniform", "dims": 2},
+        {"name": "gauss_gauss", "dims": 2},
+    ]))
+    n = draw(st.integers(100, 400))
+    crits = {
+        "ratio": [0.0, -1.0, 1.0], "ratio_all": [0.0], "ratio_ns": [0.0, 2.0],
+        "Z_err": [1.05, 1.2], "evidence_error": [1.1],
+        "log_dZ": [0.05, 0.5], "log_evidence": [0.1],
+        "ess": [500.0, 5000.0], "fractional_error": [0.02, 0.1],
+    }
+    k = draw(st.sampled_from([1, 1, 2, 3]))
+    names = draw(st.lists(st.sampled_from(sorted(crits)), min_size=k,
+                          max_size=k, unique=True))
+    tols = [draw(st.sampled_from(crits[c])) for c in names]
+    kw = {"seed": draw(st.integers(0, 2**31 - 1)), "nlive": n, "plot": False,
+          "min_samples": draw(st.integers(20, n // 2)),
+          "flow_config": {"n_blocks": 2, "n_neurons": 8,
+                          "ftype": draw(st.sampled_from(["realnvp", "nsf"]))},
+          "training_config": {"max_epochs": draw(st.integers(100, 200)),
+                              "patience": 10},
+          "max_iteration": draw(st.integers(4, 14)),
+          "checkpointing": True, "checkpoint_on_iteration": True,
+          "checkpoint_interval": 1}
+    if k == 1 and draw(st.booleans()):
+        kw["stopping_criterion"] = names[0]
+        kw["tolerance"] = tols[0]
+    else:
+        kw["stopping_criterion"] = names
+        kw["tolerance"] = tols
+        kw["check_criteria"] = draw(st.sampled_from(["any", "all"]))
+    if draw(st.booleans()):
+        kw["min_iteration"] = draw(st.integers(0, 6))
+    if draw(st.integers(0, 2)) == 0:
+        kw["draw_iid_live"] = False
+    labels = ["sampler:ins"] + ["criterion:" + c for c in names] + \
+        [f"n_criteria:{k}", "check:" + kw.get("check_criteria", "any")]
+    return {"model": model, "ins": True, "kwargs": kw, "kills": [],
+            "labels": labels}
